@@ -48,6 +48,7 @@ for _pid in ("C02", "C03", "C09"):
         explanation="theorems over the deep-embedded goal language and the stream/thunk search model; tie: cell traces of generated goal programs run with the real combinators",
     )
 PROPS["C09"]["gens"] = [gens.gen_mini, gens.gen_loops]
+PROPS["C09"]["trusted"] = PROPS["C09"]["trusted"] + ["the translator harness/cmd/genmicro (-mini: mini's n-ary combinators as functions from goal lists to goal terms, primitives of GoLiteM.v; -loops: ifThenElseLoop / onceLoop over the stream model, primitives of GoLiteS.v, among them the reading of the closure `Suspension(func() { return SELF(.., cdr) })` as the model's thunk over the immature cell whose CarCdr bound cdr)"]
 PROPS["C09"]["model"] = "Stream.v, Comb.v (conj+/disj+/conde = gen/MiniGen.v, translated from mini/disj.go, conj.go, conde.go on every run; MiniGenSpec.v; IfThenElseO/OnceO and their loops = gen/LoopsGen.v, translated from mini/ifthenelse.go, once.go on every run; StreamLoopsSpec.v)"
 PROPS["C03"]["gens"] = [gens.gen_stream]
 PROPS["C03"]["model"] = "Stream.v (take = gen/StreamGen.v, translated from micro/stream.go on every run; StreamGenSpec.v)"
@@ -187,7 +188,8 @@ PROPS["C07"] = dict(
     harness=[dict(name="main", n_quick=600, n_thorough=1500, shards_quick=1, shards_thorough=8, timeout=1500),
              dict(name="race", race=True, n_quick=80, n_thorough=300, shards_quick=1, shards_thorough=2, coq=False, timeout=1500)],
     mismatch_is_input=True,
-    trusted=_PROG_TRUSTED + _GOMINI_TRUSTED + ["that the Go functions contain no other writes than the ones transcribed in MemModel.v is what the harness checks: every value published earlier (input state, earlier answers, earlier versions of a history) is re-read after later operations and compared with what it showed when it was published",
+    trusted=_PROG_TRUSTED + _GOMINI_TRUSTED + ["the translator harness/cmd/gencell (CarCdr -> a term of the statement language of CellLang.v) and that language's interpreter over the heap model (a nil receiver or a nil closure is a panic; a closure run allocates at most one new cell)",
+                                                "that the Go functions contain no other writes than the ones transcribed in MemModel.v is what the harness checks: every value published earlier (input state, earlier answers, earlier versions of a history) is re-read after later operations and compared with what it showed when it was published",
                                                 "gomini goal trees are evaluated concurrently; both tiers repeat (part of) the harness under the race detector (supporting validation, not a theorem)"],
     assumptions=["Substitutions.String() (which sorts its receiver in place) is not a goal; the harness never calls it",
                  "bindings are observed as the sequence of pairs (micro) / the map (gomini), not as memory addresses"],
